@@ -346,6 +346,9 @@ def configs_for(prop, tier):
                  obs="equals,getters", conc=["weird"], depth=3, walks=4000, walklen=20, invariants=["TypeOK", "AcyclicInv", "EqualsInv"]),
             dict(name="eq-lits", maxrefs=4, nkeys=1, maxlen=2, scalars=[("int", 1)], lits=[("L", []), ("O", {})], arglits=[1, 2], argrefs=False,
                  ops=["NewList", "NewObject", "Add", "Set"], obs="equals", conc=["plain"], depth=3, walks=3000, walklen=12, invariants=["TypeOK", "AcyclicInv", "EqualsInv"]),
+            # objects that hold an (equal) nested object AND differ elsewhere: the verdict must not be taken from the first field visited
+            dict(name="eq-nested-k2", maxrefs=3, buildrefs=3, nkeys=2, maxlen=0, scalars=[("int", 1), ("int", 2)], ops=["NewObject", "Set", "Unset"],
+                 obs="equals", conc=["plain"], depth=3, walks=3000, walklen=12, invariants=["TypeOK", "AcyclicInv", "EqualsInv"]),
             # adjacent float64 values (float tokens 4 and 5 under the extreme concretisation)
             dict(name="eq-adjacent", maxrefs=3, nkeys=1, maxlen=2, scalars=[("float", 4), ("float", 5), ("int", 2), ("int", 3)], ops=["NewList", "NewObject", "Add", "Set"],
                  obs="equals", conc=["extreme"], depth=3, walks=3000, walklen=12, invariants=["TypeOK", "AcyclicInv", "EqualsInv"]),
